@@ -68,6 +68,13 @@ theorem foldl_join_bnd (lS : Int) (hS : LimitOk lS) : ∀ (xs : List Nat) (init 
     intro init _
     exact ih _ (Bnd_andThen fun m _ => fun n hn => stringJoin_bounded hS hn)
 
+theorem uniqueMapping_bounded {n g : Nat} {l : Int} {sz : Nat} (h : uniqueMapping n g l = .ok sz) : (sz : Int) ≤ l := by
+  unfold uniqueMapping at h
+  simp only at h
+  by_cases hc : ((min g n : Nat) : Int) > l
+  · rw [if_pos hc] at h; cases h
+  · rw [if_neg hc] at h; injection h with h; omega
+
 theorem valNested_nest (k : Nat) : (valNested k).nest = k + 1 := by
   induction k with
   | zero => simp [valNested, Val.nest]
@@ -216,6 +223,9 @@ theorem szCmdC_satisfies_spec (l : Limits) (hl : LimsOk l) (c : Ctor) (args : Li
   case regexp =>
     exact ar3_bnd (fun _ _ _ => Bnd_andThen fun _ _ => fun _ hn => allocateArray_bounded hA hn) h
   case reg_assoc => exact ar1_bnd (fun _ => Bnd_andThen fun _ _ => fun _ hn => allocateArray_bounded hA hn) h
+  case unique_mapping =>
+    exact ar2_bnd (fun _ _ => Bnd_andThen fun _ _ => fun _ hn => uniqueMapping_bounded hn) h
+  case save_nested_map => exact ar1_bnd (fun _ _ hn => saveVariable_bounded hS hn) h
   case sprintf_pad =>
     refine ar2_bnd (fun _ _ => Bnd_andThen fun _ _ => ?_) h
     split
